@@ -1,4 +1,4 @@
-import QtVerif.Proofs.StoreInv
+import QtVerif.Proofs.StoreMongo
 /-!
 C06 — Every persistence driver behaves like the reference record store.
 
@@ -11,8 +11,9 @@ the reference store is run with the names the driver chose and only demands that
 (`Err.notFresh` never occurs). `Agree` compares results up to the first operation that the reference store
 rejects as outside the contract (unorderable operands, unknown operator, an `id` in an update part, …).
 
-The Mongo driver has no Lean model: it is tied to the reference store by the correspondence check only
-(`mongo_xlate_sound` of the design is not claimed).
+Of the Mongo driver only the identifier mapping (`_id_to_db` / `_id_from_db`) is modelled and proved; its
+queries are tied to the reference store by the correspondence check only (`mongo_xlate_sound` of the design is
+not claimed).
 -/
 namespace QtVerif.Store.C06
 open QtVerif.Store
@@ -223,5 +224,31 @@ theorem unrepaired_api_replace_inverted {σ : Type} (drv : σ → Op → σ × R
     (h : drv s (.replace coll id (dset kId (.str id) rec)) = (s1, .flag true)) :
     (Api.replace Fix.asFound drv s coll id rec).2 = .flag false := by
   simp [Api.replace, h, Fix.asFound]
+
+/-! ## The Mongo driver: identifiers -/
+
+/-- **Ids come back as given**: `_id_from_db ∘ _id_to_db` is the identity on every string (24 lower-case hex
+digits travel as an ObjectId, everything else as itself) — except the one shape on which the regex `…$` and
+`bson.ObjectId` disagree (24 lower-case hex digits followed by a newline: `_id_to_db` raises, recorded finding
+C06-mongo-id-newline). -/
+theorem mongo_id_roundtrip (s : Str) (h : ¬ OidNewline s) :
+    ∃ d, Mongo.idToDb s = some d ∧ Mongo.idFromDb d = s :=
+  idToDb_roundtrip s h
+
+/-- **Distinct ids stay distinct** in the engine (case-sensitively): `_id_to_db` is injective. -/
+theorem mongo_id_injective (s t : Str) (d : Mongo.DbId) (hs : Mongo.idToDb s = some d) (ht : Mongo.idToDb t = some d) :
+    s = t :=
+  idToDb_injective s t d hs ht
+
+example : ¬ OidNewline [68, 69, 65, 68] := by simp [OidNewline]
+
+/-- Why the ObjectId test must be case-sensitive: with a test that accepts hex digits of either case, the id
+`DEADBEEF00112233AABBCCDD` comes back lower-cased and collides with its lower-case spelling. -/
+theorem mongo_loose_id_test_not_injective :
+    let up : Str := [68, 69, 65, 68, 66, 69, 69, 70, 48, 48, 49, 49, 50, 50, 51, 51, 65, 65, 66, 66, 67, 67, 68, 68]
+    let lo : Str := [100, 101, 97, 100, 98, 101, 101, 102, 48, 48, 49, 49, 50, 50, 51, 51, 97, 97, 98, 98, 99, 99, 100, 100]
+    idToDbLoose up = idToDbLoose lo ∧ (idToDbLoose up).map Mongo.idFromDb = some lo ∧ up ≠ lo ∧
+    (Mongo.idToDb up).map Mongo.idFromDb = some up := by
+  decide
 
 end QtVerif.Store.C06
